@@ -884,6 +884,7 @@ class Flattener:
         self.n_inlined = 0
         self.inlined_names = set()
         self.inlined_classes = set()
+        self.singletons = set()       # (module, name) of module-level instances whose fields were inlined
         self._names = {}
         self.log = []
 
@@ -918,7 +919,7 @@ class Flattener:
                 # obj.method(...) on a module-level instance `obj = C()` of a class of this module
                 b = fi.module.bindings.get(base)
                 if b and b[0] == "value" and isinstance(b[1], ast.Call) and isinstance(b[1].func, ast.Name) \
-                        and b[1].func.id in fi.module.classes and not b[1].args:
+                        and b[1].func.id in fi.module.classes and (not b[1].args or (fi.module.name, base) in self.singletons):
                     oc = fi.module.classes[b[1].func.id]
                     mi = oc.methods.get(name)
                     if mi is not None and not mi.is_staticmethod and not mi.is_classmethod:
@@ -1750,9 +1751,135 @@ class Flattener:
         return any_change
 
 
+class _FieldSub(ast.NodeTransformer):
+    """`<recv>.f` (load) -> the expression the field was initialised with"""
+
+    def __init__(self, recv, exprs):
+        self.recv, self.exprs = recv, exprs
+
+    def visit_Attribute(self, n):
+        if isinstance(n.value, ast.Name) and n.value.id == self.recv and n.attr in self.exprs and isinstance(n.ctx, ast.Load):
+            return ast.copy_location(clone(self.exprs[n.attr]), n)
+        self.generic_visit(n)
+        return n
+
+
+def inline_module_singletons(repo, fl):
+    """X = C(consts) at module level, C a private record-with-helpers class of the module (fields bound once in __init__,
+    never written again, X never rebound): `X.f` is the expression the field was initialised with, in the module's
+    functions and in C's own methods (which then mention no `self.f`); `X.m(a)` with an expression method m is its value."""
+    for m in repo.modules.values():
+        done = False
+        for s in list(m.tree.body):
+            if not (isinstance(s, ast.Assign) and len(s.targets) == 1 and isinstance(s.targets[0], ast.Name) and isinstance(s.value, ast.Call)
+                    and isinstance(s.value.func, ast.Name) and s.value.func.id in m.classes and s.value.func.id not in KNOWN
+                    and not s.value.keywords and all(_simple(a) for a in s.value.args)):
+                continue
+            X, ci = s.targets[0].id, m.classes[s.value.func.id]
+            if ci.base_names and ci.base_names != ["object"]:
+                continue
+            if sum(1 for n in ast.walk(m.tree) if isinstance(n, ast.Name) and n.id == X and not isinstance(n.ctx, ast.Load)) != 1:
+                continue
+            if any(isinstance(n, ast.Global) and X in n.names for n in ast.walk(m.tree)):
+                continue
+            if any(isinstance(n, ast.Attribute) and isinstance(n.value, ast.Name) and n.value.id == X and not isinstance(n.ctx, ast.Load)
+                   for n in ast.walk(m.tree)):
+                continue
+            init = ci.methods.get("__init__")
+            if init is None or not init.params or len(init.params) - 1 != len(s.value.args) or init.node.args.defaults \
+                    or init.node.args.vararg or init.node.args.kwarg:
+                continue
+            selfn = init.params[0]
+            env = dict(zip(init.params[1:], s.value.args))
+            exprs = {}
+            ok = True
+            for st in init.node.body:
+                if isinstance(st, ast.Expr) and isinstance(st.value, ast.Constant):
+                    continue
+                if isinstance(st, ast.Assign) and len(st.targets) == 1 and isinstance(st.targets[0], ast.Attribute) \
+                        and isinstance(st.targets[0].value, ast.Name) and st.targets[0].value.id == selfn \
+                        and not any(isinstance(x, (ast.Call,)) and not (isinstance(x.func, ast.Attribute) and x.func.attr == "bit_length")
+                                    for x in ast.walk(st.value)):
+                    v = _FieldSub(selfn, exprs).visit(_Subst(env).visit(clone(st.value)))
+                    if st.targets[0].attr in exprs:
+                        ok = False
+                    exprs[st.targets[0].attr] = v
+                else:
+                    ok = False
+            for mn, mi in ci.methods.items():
+                if mn != "__init__" and mi.params and any(isinstance(n, ast.Attribute) and isinstance(n.value, ast.Name) and n.value.id == mi.params[0]
+                                                           and not isinstance(n.ctx, ast.Load) for n in ast.walk(mi.node)):
+                    ok = False
+            if not ok or not exprs:
+                continue
+            # the class's own methods read the fields of the one instance there is
+            for mn, mi in ci.methods.items():
+                if mn != "__init__" and mi.params:
+                    mi.node.body = [_FieldSub(mi.params[0], exprs).visit(b) for b in mi.node.body]
+                    ast.fix_missing_locations(mi.node)
+            # expression methods: value of X.m(args)   (methods calling expression methods of self are resolved first)
+            expr_methods = {}
+            for _round in range(3):
+                for mn, mi in ci.methods.items():
+                    if mn == "__init__" or mn in expr_methods or not mi.params or mi.node.decorator_list or mi.node.args.defaults \
+                            or mi.node.args.vararg or mi.node.args.kwarg:
+                        continue
+                    sn_ = mi.params[0]
+
+                    class _SelfCall(ast.NodeTransformer):
+                        def visit_Call(self_, n):
+                            self_.generic_visit(n)
+                            f = n.func
+                            if isinstance(f, ast.Attribute) and isinstance(f.value, ast.Name) and f.value.id == sn_ and f.attr in expr_methods \
+                                    and not n.keywords and len(n.args) == len(expr_methods[f.attr][0]) and all(_simple(a) for a in n.args):
+                                ps, e = expr_methods[f.attr]
+                                return ast.copy_location(_Subst(dict(zip(ps, n.args))).visit(clone(e)), n)
+                            return n
+                    mi.node.body = [_SelfCall().visit(b) for b in mi.node.body]
+                    ast.fix_missing_locations(mi.node)
+                    body = [b for b in mi.node.body if not (isinstance(b, ast.Expr) and isinstance(b.value, ast.Constant))]
+                    if len(body) == 1 and isinstance(body[0], ast.Return) and body[0].value is not None and not any(
+                            isinstance(n, ast.Name) and n.id == sn_ for n in ast.walk(body[0].value)):
+                        expr_methods[mn] = (mi.params[1:], body[0].value)
+
+            class _Use(ast.NodeTransformer):
+                def visit_Call(self_, n):
+                    self_.generic_visit(n)
+                    f = n.func
+                    if isinstance(f, ast.Attribute) and isinstance(f.value, ast.Name) and f.value.id == X and f.attr in expr_methods \
+                            and not n.keywords and len(n.args) == len(expr_methods[f.attr][0]) and all(_simple(a) for a in n.args):
+                        ps, e = expr_methods[f.attr]
+                        # each argument used once, or plain
+                        for p_, a_ in zip(ps, n.args):
+                            uses = sum(1 for x in ast.walk(e) if isinstance(x, ast.Name) and x.id == p_)
+                            if uses > 1 and any(isinstance(x, ast.Subscript) for x in ast.walk(a_)):
+                                return n
+                        fl.inlined_names.add(f.attr)
+                        return ast.copy_location(_Use().visit(_Subst(dict(zip(ps, n.args))).visit(clone(e))), n)
+                    return n
+            for i, st in enumerate(m.tree.body):
+                if st is s or (isinstance(st, ast.ClassDef) and st is ci.node and False):
+                    continue
+                st2 = _Use().visit(_FieldSub(X, exprs).visit(st))
+                ast.fix_missing_locations(st2)
+                m.tree.body[i] = st2
+            fl.log.append("%s: module singleton `%s` of %s: fields %s inlined" % (m.name, X, ci.name, sorted(exprs)))
+            fl.singletons.add((m.name, X))
+            done = True
+        if done:
+            for n in ast.walk(m.tree):
+                for c in ast.iter_child_nodes(n):
+                    c._parent = n
+
+
 def flatten_repo(repo):
     """Inline unknown helpers everywhere (in place: FunctionInfo.node bodies are rewritten)."""
     fl = Flattener(repo)
+    try:
+        inline_module_singletons(repo, fl)
+    except Exception as e:
+        import traceback
+        fl.log.append("inline_module_singletons failed: %r %s" % (e, traceback.format_exc().splitlines()[-3:]))
     touched = []
     for m in repo.modules.values():
         if m.name.startswith("pysnark.zkinterface.") and m.name not in ("pysnark.zkinterface.backend",):
